@@ -215,6 +215,70 @@ def b2_compress_ref(v, h, blk, t, last):
     return [h[i] ^ x[i] ^ x[i + 8] for i in range(8)]
 
 
+def pts_b2craft(tier):
+    return [(v, col, site, tgt) for v in ('s', 'b') for col in range(4) for site in range(4) for tgt in range(4)]
+
+
+def run_b2craft(ctx, pt):
+    """one-block messages in which one message word is solved for so that the input of one of the four rotations of a
+    first-round G call is 0, all-ones, 1 or the top bit (intermediate value classes no data pattern reaches by chance)"""
+    v, col, site, tgt = pt
+    w = 64 if v == 'b' else 32
+    mask = (1 << w) - 1
+    R = (32, 24, 16, 63) if v == 'b' else (16, 12, 8, 7)
+    T = [0, mask, 1, 1 << (w - 1)][tgt]
+    bl = 128 if v == 'b' else 64
+    n = bl - 3                      # a short single block: counter t = n, last block flag set
+    base = bytearray(expander(bl, 50 + col))
+    for i in range(n, bl):
+        base[i] = 0
+    iv = RB.IV512 if v == 'b' else RB.IV256
+    h = list(iv)
+    h[0] ^= 0x01010000 ^ (w // 8 * 8 if False else (64 if v == 'b' else 32))
+    m = [int.from_bytes(base[i * w // 8:(i + 1) * w // 8], 'little') for i in range(16)]
+    x = list(h) + list(iv)
+    x[12] ^= n
+    x[14] ^= mask
+    rol = lambda a, k: ((a << k) | (a >> (w - k))) & mask
+    ror = lambda a, k: ((a >> k) | (a << (w - k))) & mask
+    a, b, c, d = x[col], x[col + 4], x[col + 8], x[col + 12]
+    ix, iy = 2 * col, 2 * col + 1          # sigma[0] is the identity
+    if site == 0:            # input of the first rotation: d ^ (a + b + mx)
+        m[ix] = ((T ^ d) - a - b) & mask
+    elif site == 1:          # input of the second rotation: b ^ (c + d'), d' = ror(d ^ a', R0)
+        d1 = ((T ^ b) - c) & mask
+        a1 = d ^ rol(d1, R[0])
+        m[ix] = (a1 - a - b) & mask
+    else:
+        a1 = (a + b + m[ix]) & mask
+        d1 = ror(d ^ a1, R[0])
+        c1 = (c + d1) & mask
+        b1 = ror(b ^ c1, R[1])
+        if site == 2:        # input of the third rotation: d' ^ (a' + b' + my)
+            m[iy] = ((T ^ d1) - a1 - b1) & mask
+        else:                # input of the fourth rotation: b' ^ (c' + d''), d'' = ror(d' ^ a'', R2)
+            d2 = ((T ^ b1) - c1) & mask
+            a2 = d1 ^ rol(d2, R[2])
+            m[iy] = (a2 - a1 - b1) & mask
+    M = b''.join(x_.to_bytes(w // 8, 'little') for x_ in m)[:n]
+    # non-vacuity: recompute the four rotation inputs of this column forwards and insist that the target is hit
+    a1 = (a + b + m[ix]) & mask
+    i0 = d ^ a1
+    d1 = ror(i0, R[0])
+    c1 = (c + d1) & mask
+    i1 = b ^ c1
+    b1 = ror(i1, R[1])
+    a2 = (a1 + b1 + m[iy]) & mask
+    i2 = d1 ^ a2
+    d2 = ror(i2, R[2])
+    i3 = b1 ^ ((c1 + d2) & mask)
+    if (i0, i1, i2, i3)[site] != T:
+        raise InternalError('crafted BLAKE2 message does not reach its target %r' % (pt,))
+    ctx.extra['crafted_targets_hit'] += 1
+    # the solved word must lie inside the message (it does: words 0..7 of a block of bl-3 bytes)
+    ctx.eq('C11/blake2%s/crafted-rotation-input' % v, ctx.attempt(lambda: mk2(v)(M)), ('ok', h2(v)(M).digest()))
+
+
 def pts_b2preset(tier):
     pts = []
     for v in ('s', 'b'):
@@ -368,6 +432,8 @@ def subchecks():
         Sub('blake-preset-counters', pts_preset, run_preset, engine='H',
             bound='live object with preset chaining value and bit counter around 2^w, 2^(w+1), 2^(2w)-2B, then update(M, padding=True) with |M| in 6 classes; reference compression gets the explicit counter (0 for a padding-only block)'),
         Sub('blake-salted-streaming', pts_stream_salt, run_stream_salt, engine='H', bound='initstate(salt) with a non-palindromic salt, 2..4 block-aligned updates, closing update, 4 digest sizes'),
+        Sub('blake2-crafted-words', pts_b2craft, run_b2craft, engine='P',
+            bound='BLAKE2s/2b one-block messages in which a message word is solved so that the input of each of the 4 rotations of each of the 4 first-round column G calls is 0 / all-ones / 1 / top bit (128 messages) vs hashlib'),
         Sub('blake2-preset-counters', pts_b2preset, run_b2preset, engine='H',
             bound='BLAKE2s/2b live object with the byte counter preset to 2^k-blocklen for every k in 10..2w-1 (and 2^k at the word boundaries), closing update of 1 byte / one block+1 / 3 bytes; RFC 7693 compression written out as reference'),
         Sub('blake2-lengths', pts_b2len, run_b2len, engine='P', bound='BLAKE2s/2b x every byte length 0..4 blocks+1 and 5, 8, 16, 17, 33 (thorough 64, 65, 257) blocks -1/0/+1 byte x 2 patterns vs hashlib'),
